@@ -21,7 +21,9 @@ func init() {
 func genC01(g *Gen) *Plan {
 	hfp := g.n(1, 3)
 	p := &Plan{Profile: "C01", Seed: g.Seed, Policy: g.policy(), ClockMenuMs: g.clockMenu(), ClockWeight: pick(g, 0.0, 0.05, 0.15, 0.4), MaxSteps: 900}
-	p.Configs = []Config{baseConfig(1000, hfpString(hfp), "")}
+	size := pick(g, 1000, 1000, 1000, 100, 5000, 2000)
+	p.Configs = []Config{baseConfig(size, hfpString(hfp), "")}
+	reapply := g.p(0.2)
 	nkeys := g.n(1, 3)
 	keys := []string{}
 	for i := 0; i < nkeys; i++ {
@@ -54,6 +56,18 @@ func genC01(g *Gen) *Plan {
 		T := lifetimes[ep%len(lifetimes)]
 		return pick(g, T*1000-500, T*1000, T*1000+500, T*1000+1000, T*1000+1500, (T+hfp)*1000+1100)
 	})
+	if reapply {
+		// the unchanged configuration is applied again while requests are in flight (an update
+		// that touched something else): the surviving cache keeps its entries and its fetches
+		ops := p.Ops
+		p.Ops = nil
+		for i, op := range ops {
+			p.Ops = append(p.Ops, op)
+			if op.Kind == OpReq && g.p(3.0/float64(len(ops)+1)) && i < len(ops)-1 {
+				p.Ops = append(p.Ops, Op{Kind: OpReload, Config: 0})
+			}
+		}
+	}
 	return p
 }
 
